@@ -177,5 +177,8 @@ def run_part(ctx):
 
 
 def replay(data):
-    bad, world = scenario(Chooser(data["choices"]), data["W"], tuple(data["outs"]))
+    try:
+        bad, world = scenario(Chooser(data["choices"]), data["W"], tuple(data["outs"]))
+    except Pruned:
+        return [("runner:livelock-or-horizon", "run did not finish within the action horizon")]
     return [(f"runner:{c}", m) for c, m in bad]
